@@ -73,6 +73,11 @@ def mapIds (p : PS) (l : List Int) : List Int := l.map (fun r => p.ids.getD r.to
 def step (p : PS) (t : List String) : PS × String :=
   match t with
   | ["begin", m] => ({ s := {}, M := nat! m, ids := #[], on := true, failed := false, steps := 0, cs := [], spurs := 0 }, "ok")
+  | ["scope2"] =>
+    -- "proved": the replayed choices satisfy HandoverChain and the replay never armed `stale` (every step is a choice
+    -- of the proved model): the run is covered by log_order_handover_chain / no_stuck_state / moves_bounded
+    if p.failed then (p, "ok")
+    else (p, if !chainScope p.cs.reverse then "outside" else if p.spurs == 0 then "proved" else "spur")
   | ["scope"] =>
     -- which proved scope the replayed choice sequence is in (Props.C02sys.chainScope_iff)
     if p.failed then (p, "ok")
@@ -106,6 +111,24 @@ def step (p : PS) (t : List String) : PS × String :=
       let b : BrokerProd.St := { wk.bp with stale := true }
       let s' : Sys := { p.s with wk := setW p.s.wk k ⟨wk.inq, b, wk.pend⟩ }
       ({ p with s := s', spurs := p.spurs + 1 }, "ok")
+    | ["closeW", w] => doStep p (.closeW (nat! w)) s!"closeW of worker {w}"
+    | ["connEmpty", w, still] =>
+      -- a request that carries nothing of this partition fails with a connection error and closes worker `w`.
+      -- In the one-partition model: the current worker, holding nothing, is closed (`closeW`); a worker that holds
+      -- something of the partition hands it over, the request fails, the answer is delivered; a worker that
+      -- already refuses the partition and holds nothing is not affected.
+      let k := nat! w
+      if canClose p.s k then doStep p (.closeW k) s!"closeW of worker {w}"
+      else match sysStep p.M p.s (.handover k) with
+        | some s1 =>
+          let p1 := { p with s := s1, steps := p.steps + 1, cs := Choice.handover k :: p.cs }
+          match doStep p1 (.broker k (.conn false)) s!"broker step of worker {w} (conn)" with
+          | (p2, "ok") => doStep p2 (.deliver k (still == "1")) s!"deliver to worker {w}"
+          | r => r
+        | none =>
+          if (BrokerProd.needsRetry (p.s.wk k).bp 0 || p.s.cur != some k) && (p.s.wk k).bp.sets.isEmpty &&
+              (p.s.wk k).pend.isNone then (p, "ok")   -- a worker the partition has left, or that refuses it already
+          else reject p s!"worker {w} is closed by a foreign request in a state the model has no step for"
     | ["handover", w] => doStep p (.handover (nat! w)) s!"handover of worker {w}"
     | ["leader", b] => doStep p (.moveLeader (nat! b)) "moveLeader"
     | ["broker", w, v, app] =>
